@@ -17,25 +17,15 @@ typedef int qext;      /* QXmppClientExtension *  (handle, 0 = nullptr) */
 qclient gh_client;     /* the client this manager / this private object belongs to */
 
 /* ---------------------------------------------------------------- QList append (A-QLIST) */
-#define QLIST_MAX 0x7ffffff   /* QList cannot hold more elements (allocation fails first) */
 int __CPROVER_uninterpreted_list_app(int l1, int n1, int l2, int n2);
-int __CPROVER_uninterpreted_list_push(int l, int n, int x);
 static inline int l_app(int l1, int n1, int l2, int n2) { return n2 <= 0 ? l1 : n1 <= 0 ? l2 : __CPROVER_uninterpreted_list_app(l1, n1, l2, n2); }
 static inline int l_app_n(int n1, int n2) { return (n1 >= 0 && n2 >= 0 && n1 <= QLIST_MAX - n2) ? n1 + n2 : QLIST_MAX; }
-static inline int l_push(int l, int n, int x) { return n <= 0 ? l_single(x) : __CPROVER_uninterpreted_list_push(l, n, x); }
 static inline void qlst_append_list(QLst *l, const QLst *m)
 {
   __CPROVER_assume(l->n >= 0 && m->n >= 0 && l->n <= QLIST_MAX - m->n);     /* the append succeeded */
   l->id = l_app(l->id, l->n, m->id, m->n);
   l->n = l_app_n(l->n, m->n);
 }
-static inline void qlst_append(QLst *l, int x)
-{
-  __CPROVER_assume(l->n >= 0 && l->n < QLIST_MAX);
-  l->id = l_push(l->id, l->n, x);
-  l->n = l->n + 1;
-}
-
 /* ---------------------------------------------------------------- QXmppDiscoveryIq::Identity as a value with functional setters */
 ident __CPROVER_uninterpreted_ident_make(qstr c, qstr t, qstr l, qstr n);
 static inline ident id_make(qstr c, qstr t, qstr l, qstr n)
